@@ -157,6 +157,9 @@ pub fn exec_ops(w: &mut e57::E57Writer<Dev>, p: &Program) -> Result<(), String> 
             Op::Blob(b) => {
                 w.add_blob(&mut crate::dev::Src::new(b.clone())).map_err(es)?;
             }
+            Op::BlobFail(b, k) => {
+                let _ = w.add_blob(&mut crate::wprog::FailingSrc { data: b.clone(), pos: 0, fail_at: *k });
+            }
             Op::Image(img) => {
                 let mut iw = w.add_image(img.guid.as_deref().unwrap_or("")).map_err(es)?;
                 for rep in [&img.visual, &img.projection].into_iter().flatten() {
